@@ -7,6 +7,7 @@ import (
 	"path/filepath"
 	"regexp"
 	"strings"
+	"time"
 
 	"verif/core"
 	"verif/sut"
@@ -638,7 +639,8 @@ func c10All(env *core.Env, c *fmtCase) core.Verdict {
 			tree[n] = c.Content
 		}
 	}
-	if rng.Intn(4) == 0 {
+	many := rng.Intn(4) == 0
+	if many {
 		// a tree of the size of a real one (files of very different lengths): no file ends up with another file's lines
 		for k := 0; k < 90; k++ {
 			var sb strings.Builder
@@ -656,7 +658,21 @@ func c10All(env *core.Env, c *fmtCase) core.Verdict {
 	if err := tree.Write(root); err != nil {
 		return core.Incon("cannot write tree: %v", err)
 	}
-	v := core.Verdict{Status: core.Held, Nontrivial: true, Features: []string{"lane:all", fmt.Sprintf("refused-file:%v", refused != "")}, Counts: map[string]int{}}
+	v := core.Verdict{Status: core.Held, Nontrivial: true, Features: []string{"lane:all", fmt.Sprintf("refused-file:%v", refused != ""), fmt.Sprintf("many-files:%v", many)}, Counts: map[string]int{}}
+	if many {
+		// the big tree first on a build with the race detector (a copy of it): buffers that travel between the files
+		// show there in the first run
+		if rb, err := env.Variant(sut.BuildOpts{Tags: "verif", Race: true}); err == nil {
+			rootR := filepath.Join(filepath.Dir(root), "race", "crs")
+			if err := tree.Write(rootR); err == nil {
+				rr := sut.Run(sut.Cmd{Bin: rb, Args: []string{"-d", rootR, "regex", "format", "--all"}, Dir: rootR, Timeout: 300 * time.Second})
+				if rr.Class() == sut.ClassFault {
+					return core.Viol("data-race:format-all", "format --all on the build with the race detector: %s", describe(rr))
+				}
+				v.Counts["race_detector_runs"]++
+			}
+		}
+	}
 	f := cli(env, root, nil, "regex", "format", "--all")
 	if f.Class() == sut.ClassTimeout {
 		return core.Incon("watchdog hit, not judged: %s", describe(f))
